@@ -18,7 +18,10 @@ LEVEL = "exploration"
 TECHNIQUE = ("differential runtime monitor of BIP32/49/84 nodes vs a from-the-BIP reference at every derivation step; "
              "public/private commutation, text round trip per network (every documented parse entry point), path spellings, "
              "sub-key cache histories vs fresh nodes with read-only queries / failing calls interleaved on every reused node; "
-             "every spelling that yields the text form (hwif, as_text, repr/str, ku_output*, serialize) on every flavour and origin of node")
+             "every spelling that yields the text form (hwif, as_text, repr/str, ku_output*, serialize) on every flavour and origin of node; "
+             "one history over several related node objects (moved between networks with override_network, cached children, public copies) with "
+             "refused calls and caller-owned buffers in between; one long run of more than 2^16 distinct children of ONE node judged by "
+             "incremental references (hash step per child, running point sum per block)")
 RULE = ("cases: (network, seed of 16..64 bytes incl. the BIP vectors, path of depth 0..8 (one of depth 255) with indices "
         "biased to 0,1,255,256,2^16,2^24-1,2^24,2^31-1, hardened or not, hardened steps spelled H/p/') -> all fields and both "
         "texts vs the reference, step-wise vs path derivation, commutation with public_copy on the non-hardened tail, "
@@ -42,7 +45,20 @@ RULE = ("cases: (network, seed of 16..64 bytes incl. the BIP vectors, path of de
         "ku_output_for_hk; serialize default / True / False) in a shuffled order with repeats as one history, then both texts "
         "read back through parse.<bip>, <bip>_prv/_pub, hierarchical_key, secret, parse(text) and <bip>_deserialize: same "
         "fields, same texts by the spellings again, and a further child of the node read back. Distinct by (kind, network, seed, path / fields / call list / queries); non-trivial when at least "
-        "one child derivation or one parse is involved (depth-0 master-only cases are trivial).")
+        "one child derivation or one parse is involved (depth-0 master-only cases are trivial). "
+        "kind 'objs': (flavour, source network, destination network biased to pairs whose bip32 prefixes differ, third network, seed, base path, "
+        "private / public-only, root from a bytearray seed / bytearray blob) -> a list of operations over node objects: ask (index, hardened, "
+        "as_private) / path (with or without '.pub') of node k, move node k to a network (override_network), take a cached child or a "
+        "public copy as a node of its own, refused call (catalogue REFUSALS: float / str / None / bytes / 2^31 / 2^32 / negative index - the "
+        "same index the next judged request uses -, paths failing at a late component, subkeys / children with bad arguments, private "
+        "form of a public node, texts and blobs that do not parse, non-bytes seeds) on node k, scribble over a returned container; the "
+        "same requests are made before the move on the source, after it on the moved node and again on the source, and new ones first "
+        "on the moved node and then on the source; in part of the cases a second move (back / to a third network), a child moved, a "
+        "late public copy moved; an Electrum wallet from a bytearray master public key with refused subkey() calls between. "
+        "kind 'longrun': (network, seed, base path, private or public-only parent read from its xpub, start index, odd step, pattern "
+        "of (hardened, as_private)) -> request t = (start + (t // m) * step mod 2^31, pattern[t mod m]); 2^16 + 140 (thorough 2^17 + 140, "
+        "private and public parent) distinct requests on one node, an earlier request repeated every 61 requests and three times per "
+        "request in the window [-6, +40] around each multiple of 2^16.")
 ASSUMPTIONS = [
     "vmon/refs/bip32.py is correct (self-tested on every run: BIP32 test vectors 1 and 2, every chain, both texts; "
     "N(CKDpriv) = CKDpub(N) on the vectors and random material; fixed-base table vs refs/ec.py ladder; Electrum v1 addresses)",
@@ -75,6 +91,19 @@ ASSUMPTIONS = [
     "a public-only parent asked for a PRIVATE child (subkey(as_private=True)) may refuse: not judged when the long-lived and the "
     "fresh node refuse alike; how many children children() / an Electrum range hands out is a required counter, not an oracle",
     "chain code / parent fingerprint / serialize(): the octets are compared, bytes-like carriers (bytearray) are accepted",
+    "a node made by override_network(network) is a node of that network: it and its children must hold the reference fields and hand "
+    "out texts of THAT network (any flavour the destination defines is tolerated for the moved node, its children must show the flavour "
+    "the moved node shows) which that network's parser reads back; the node it was made from goes on handing out its own network's "
+    "texts; whether override_network succeeds is not judged (a required counter says the run moved nodes)",
+    "calls from the catalogue REFUSALS: whether they raise, return None or answer is not judged; after each of them the node must "
+    "have the fields and text it had, and every later judged request must be right",
+    "caller-owned mutable arguments are only judged where the library accepts them (bytearray seed, bytearray Electrum master public "
+    "key today): the argument is unchanged by the call, the same argument gives the same answer, the caller's later edits do not reach "
+    "the node; a returned container is scribbled over only when it is a mutable one (bytearray / list / dict)",
+    "long run: sum over a block of the public pairs handed out = point(sum of the reference child secrets) (public-only parent: "
+    "point(sum I_L) + count * K_parent) stands for the per-child comparison of the public pair (errors cancelling in a sum of 512 "
+    "points are not a realistic fault); a disagreeing block is re-judged child by child with the full reference, and if every child "
+    "then agrees the run is inconclusive",
 ]
 EXPLANATION = ("held = every observed secret exponent, public pair, chain code, depth, parent fingerprint, child number and "
                "xprv/xpub (yprv/zprv...) text equalled the reference; public derivation equalled the public half of private "
@@ -92,7 +121,8 @@ def exhaustive(tier):
 
 def configurations(tier):
     return ["every pycoin network with bip32 prefixes (bip49/bip84 where defined) except the groestl family (package absent)",
-            "EC backend: as selected by pycoin at import (OpenSSL when loadable); one derive shard with PYCOIN_NATIVE=none"]
+            "EC backend: as selected by pycoin at import (OpenSSL when loadable); one derive shard with PYCOIN_NATIVE=none",
+            "long run: quick = one parent (private or public-only, by the shard rng), thorough = both"]
 
 
 def plan(tier, seed):
@@ -110,6 +140,14 @@ def plan(tier, seed):
     shards.append({"kind": "electrum", "n": 300 if q else 6000, "label": "electrum"})
     for i in range(2 if q else 6):       # appended last: the rng streams of the shards above do not move
         shards.append({"kind": "text", "n": 160 if q else 2500, "label": "text%d" % i})
+    for i in range(2 if q else 6):       # several related node objects in one history: moves between networks, refused calls, caller-owned buffers
+        shards.append({"kind": "objs", "n": 150 if q else 2500, "label": "objs%d" % i})
+    # the N-th operation: ONE node asked for more than 2^16 + 100 (thorough: 2^17 + 100) distinct children in one process
+    if q:
+        shards.append({"kind": "longrun", "n": (1 << 16) + 140, "label": "longrun"})
+    else:
+        for public in (False, True):
+            shards.append({"kind": "longrun", "n": (1 << 17) + 140, "public": public, "label": "longrun-%s" % ("public" if public else "private")})
     return shards
 
 
@@ -1407,10 +1445,787 @@ def run_vectors(spec, rec, ctx):
 
 
 # ---------------------------------------------------------------------------------------------------------
+# kind "longrun": the N-th operation.  ONE node object is asked for more than 2^16 + 100 DISTINCT children (its sub-key cache
+# holds one entry per (index, hardened, as_private); the process performs as many generator multiplications), with repeats of
+# earlier requests in between.  Every child is judged: secret, chain code, depth, parent fingerprint and child number directly
+# (the hash step of CKDpriv / CKDpub costs no curve arithmetic), the public pair of every child through a running point sum
+# that is compared once per block with ONE reference multiplication (sum point(k_j) = point(sum k_j); for a public-only parent
+# sum K_j = point(sum I_L,j) + count * K_parent); a sample and the window around 2^16 get the full reference and both texts.
+# A block whose sum disagrees is re-judged child by child with the full reference to name the first wrong child.
+
+LONG_BLOCK = 512
+LONG_MARK = 1 << 16
+
+
+def longrun_op(case, t):
+    """request number t of the run -> (index, hardened, as_private argument); a function of the case alone (replayable).
+    Distinct t give distinct (index, hardened, as_private) as long as step is odd and the kinds are distinct lookups."""
+    kinds = case["kinds"]
+    u, w = divmod(t, len(kinds))
+    hard, ap = kinds[w]
+    return (case["start"] + u * case["step"]) % HARD, bool(hard), (None if ap is None else bool(ap))
+
+
+def chk_longrun(case, rec, ctx):
+    code, seed, base, public, n = case["net"], case["seed"], list(case["base"]), case["public"], case["n"]
+    net = ctx.nets[code]
+    prv, pub = ctx.prefixes[code]["bip32"]
+    C = RB.C
+
+    def V(mech, observed, expected, upto=None):
+        rec.violation(mech, dict(case, n=upto) if upto is not None else case, observed, expected)
+    try:
+        rbase = RB.derive(RB.master(seed), base)
+    except RB.Invalid:
+        rec.ev("reference_invalid_key")
+        return
+    st, shared = observe(lambda: net.keys.bip32_seed(seed).subkey_for_path(RB.path_text(base)))
+    if st != "ok":
+        return V("bip32.subkey_for_path_raises", shared, "a node")
+    if public:
+        # a public-only account node read from its text, as a watch-only scanner holds it
+        st, shared = node_from_text(ctx, code, "bip32", RB.to_text(rbase, pub, False), rec)
+        if st != "ok" or shared is None:
+            return V("bip32.roundtrip.parse_failed", shared, "a node")
+        rbase = rbase.neuter()
+    rec.ev("longrun.public_parent" if public else "longrun.private_parent")
+    st, own_text = observe(shared.hwif, as_private=not public)
+    if st != "ok":
+        return V("bip32.hwif_raises", own_text, "text")
+    serK, fp, depth1 = RB.serP(rbase.K), rbase.fingerprint(), rbase.depth + 1
+    pairs = []                     # public pair handed out for request t (first time)
+    acc, ssum, cnt = RB.PointSum(), 0, 0
+    block = []                     # (t, child) of the current block, kept for the child-by-child fallback
+    distinct = 0
+
+    def tweak(t):
+        i, hard, ap = longrun_op(case, t)
+        ci = i + (HARD if hard else 0)
+        il, cc = RB.ckd_tweak(rbase.c, serK, rbase.k, ci)
+        want_private = rbase.k is not None and ap is not False
+        ki = None
+        if rbase.k is not None:
+            ki = (il + rbase.k) % RB.N
+            if ki == 0:
+                raise RB.Invalid("zero key")
+        return i, hard, ap, ci, il, cc, ki, want_private
+
+    def direct(ch, tw):
+        """the fields that need no curve arithmetic; -> (field, got, expected) or None, and the public pair"""
+        i, hard, ap, ci, il, cc, ki, want_private = tw
+        sec = ch.secret_exponent()
+        if sec != (ki if want_private else None):
+            return ("secret", sec, ki if want_private else None), None
+        g = ch.chain_code()
+        if bytes(g) != cc or not isinstance(g, (bytes, bytearray, memoryview)):
+            return ("chain_code", g, cc), None
+        if ch.tree_depth() != depth1:
+            return ("depth", ch.tree_depth(), depth1), None
+        g = ch.parent_fingerprint()
+        if bytes(g) != fp or not isinstance(g, (bytes, bytearray, memoryview)):
+            return ("parent_fingerprint", g, fp), None
+        if ch.child_index() != ci:
+            return ("child_number", ch.child_index(), ci), None
+        P = ch.public_pair()
+        P = tuple(P) if P is not None else None
+        if P is None or len(P) != 2 or not all(isinstance(v, int) for v in P) or not C.on_curve(P):
+            return ("public_pair", P, "a point of the curve"), None
+        return None, (int(P[0]), int(P[1]))
+
+    def full(ch, tw, t, texts):
+        """full reference for one child (one multiplication), optionally both texts; -> True when it agrees"""
+        i, hard, ap, ci, il, cc, ki, want_private = tw
+        rec.ev("longrun.full_reference")
+        try:
+            rch = RB.ckd_priv(rbase, ci) if rbase.k is not None else RB.ckd_pub(rbase, ci)
+        except RB.Invalid:
+            return True
+        d = diff_fields(fields_of(ch, rec), rch, want_private)
+        if d:
+            V("bip32.longrun.%s" % d[0], {"request": t, "args": [i, hard, ap], "got": d[1]}, d[2], t + 1)
+            return False
+        if texts:
+            for half in ((True, False) if want_private else (False,)):
+                rec.ev("longrun.text")
+                st, txt = observe(ch.hwif, as_private=half)
+                exp = RB.to_text(rch, prv if half else pub, half)
+                if st != "ok" or txt != exp:
+                    V("bip32.longrun.hwif_mismatch.%s" % ("prv" if half else "pub"), {"request": t, "args": [i, hard, ap], "got": txt}, exp, t + 1)
+                    return False
+        return True
+
+    def close_block(upto):
+        """compare the running sum of the block's public pairs with one reference multiplication"""
+        nonlocal acc, ssum, cnt, block
+        if not block:
+            return True
+        rec.ev("longrun.block_sum")
+        rec.case(("longrun", code, seed, tuple(base), public, case["start"], case["step"], freeze(case["kinds"]), upto), n=len(block))
+        exp = RB.point(ssum)
+        if rbase.k is None:
+            exp = C.add(exp, C.mul(cnt, rbase.K))
+        ok = acc.value() == exp
+        if not ok:
+            for t, ch in block:
+                if not full(ch, tweak(t), t, False):
+                    return False
+            rec.ev("inconclusive:longrun_block_sum_disagrees_but_every_child_agrees")
+            rec.note("longrun: block ending at request %d: running sum differs from the reference, children agree one by one" % upto)
+            return False
+        acc, ssum, cnt, block = RB.PointSum(), 0, 0, []
+        return True
+
+    for t in range(n):
+        try:
+            tw = tweak(t)
+        except RB.Invalid:
+            pairs.append(None)
+            continue
+        i, hard, ap = tw[:3]
+        st, ch = observe(shared.subkey, i, hard, ap)
+        distinct += 1
+        if st != "ok":
+            return V("bip32.longrun.subkey_raises", {"request": t, "distinct_requests_so_far": distinct, "args": [i, hard, ap], "exc": ch},
+                     "a node", t + 1)
+        try:
+            d, P = direct(ch, tw)
+        except Exception as e:
+            return V("bip32.longrun.accessor_raises", {"request": t, "args": [i, hard, ap], "exc": e}, "values", t + 1)
+        if d:
+            return V("bip32.longrun.%s" % d[0], {"request": t, "args": [i, hard, ap], "got": d[1]}, d[2], t + 1)
+        pairs.append(P)
+        acc.add(P)
+        ssum = (ssum + (tw[6] if rbase.k is not None else tw[4])) % RB.N
+        cnt += 1
+        block.append((t, ch))
+        near = distinct >= LONG_MARK - 6 and (distinct % LONG_MARK >= LONG_MARK - 6 or distinct % LONG_MARK <= 40)    # around each multiple of 2^16
+        if near or t % 128 == 17:
+            if not full(ch, tw, t, near or t % 1024 == 17):
+                return
+        elif tw[7] and t % 8 == 1:
+            # the private text needs no curve arithmetic
+            rec.ev("longrun.text")
+            st, txt = observe(ch.hwif, as_private=True)
+            exp = RB.to_text(RB.Node(tw[6], None, tw[5], depth1, fp, tw[3]), prv, True)
+            if st != "ok" or txt != exp:
+                return V("bip32.longrun.hwif_mismatch.prv", {"request": t, "args": [i, hard, ap], "got": txt}, exp, t + 1)
+        # an earlier request once more (a hit of the cache, or a re-derivation if the library dropped the entry)
+        if t and (near or t % 61 == 7):
+            for r in ((t - 1, 0, (t * 7919) % t) if near else ((t * 7919) % t,)):
+                if pairs[r] is None:
+                    continue
+                rec.ev("longrun.repeat")
+                twr = tweak(r)
+                st, again = observe(shared.subkey, twr[0], twr[1], twr[2])
+                if st != "ok":
+                    return V("bip32.longrun.repeat_raises", {"request": t, "repeated": r, "args": list(twr[:3]), "exc": again}, "a node", t + 1)
+                try:
+                    d, P = direct(again, twr)
+                except Exception as e:
+                    return V("bip32.longrun.accessor_raises", {"request": t, "repeated": r, "exc": e}, "values", t + 1)
+                if d is None and P != pairs[r]:
+                    d = ("public_pair", P, pairs[r])
+                if d:
+                    return V("bip32.longrun.repeat_differs.%s" % d[0], {"request": t, "repeated": r, "args": list(twr[:3]), "got": d[1]}, d[2], t + 1)
+        if len(block) >= LONG_BLOCK:
+            if not close_block(t + 1):
+                return
+        if distinct == LONG_MARK + 100:
+            rec.ev("longrun.beyond_2^16")
+        if distinct == 2 * LONG_MARK + 100:
+            rec.ev("longrun.beyond_2^17")
+    if not close_block(n):
+        return
+    rec.ev("longrun.requests", n)
+    # nothing that was asked changed the node itself; it still derives a path
+    d = diff_fields(fields_of(shared, rec), rbase, not public)
+    if d:
+        return V("bip32.history.node_changed.%s" % d[0], d[1], d[2])
+    st, txt = observe(shared.hwif, as_private=not public)
+    if st != "ok" or txt != own_text:
+        return V("bip32.history.node_changed.text", txt, own_text)
+    tail = [longrun_op(case, 0)[0], 1, 2] if public else [longrun_op(case, 0)[0], HARD + 1, 2]
+    rec.ev("subkey_for_path")
+    st, deep = observe(shared.subkey_for_path, RB.path_text(tail))
+    if st != "ok":
+        return V("bip32.subkey_for_path_raises", deep, "a node")
+    d = diff_fields(fields_of(deep, rec), RB.derive(rbase, tail), not public)
+    if d:
+        return V("bip32.history.path.%s" % d[0], {"path": RB.path_text(tail), "got": d[1]}, d[2])
+
+
+def run_longrun(spec, rec, ctx):
+    rng = shard_rng(spec["seed"], PROPERTY, spec["tier"], spec["shard"])
+    public = spec.get("public")
+    if public is None:
+        public = rng.random() < 0.5
+    kinds = [[0, None]] if public else rng.choice([[[0, None]], [[0, None], [1, None]], [[0, None], [0, 0], [1, 1], [1, 0]]])
+    case = {"kind": "longrun", "net": rng.choice(["BTC", "XTN"]), "seed": gen_seed(rng, 1),
+            "base": [gen_index(rng) for _ in range(rng.choice([0, 1, 3]))], "public": bool(public), "kinds": kinds,
+            "start": rng.choice([0, 0, (1 << 24) - 20000, HARD - 9000, rng.randrange(HARD)]),
+            "step": rng.choice([1, 1, 1, rng.randrange(HARD) | 1]), "n": spec["n"]}
+    if public:      # the account node of a watch-only wallet sits below hardened steps
+        case["base"] = [HARD + 84, HARD, HARD + rng.randrange(4), rng.randrange(2)][:rng.choice([0, 3, 4])]
+    rec.sample({k: v for k, v in case.items()})
+    chk_longrun(case, rec, ctx)
+
+
+# ---------------------------------------------------------------------------------------------------------
+# kind "objs": ONE history over SEVERAL related node objects in one process: a node, the nodes override_network() makes of
+# it on other networks (and of those, back again), cached children taken as nodes in their own right and moved, public
+# copies.  The same child is requested on both sides of every move, in both orders, by subkey() and by path, private and
+# public-only; between the judged requests: calls the library refuses part-way (an index that is a float / str / None /
+# 2^31 / 2^32 / negative, the SAME index the next judged request uses; paths failing late; texts and blobs that do not
+# parse; a private form asked of a public-only node), after each of which the object must be what it was; caller-owned
+# mutable arguments (bytearray seed / blob / Electrum master public key, reused by the caller afterwards) and returned
+# mutable containers scribbled over by the caller.
+# Judged: every child against the reference; its texts must be texts of the network of the node it was asked of (the
+# node's own flavour for a node that was never moved; any flavour the destination defines for a moved one) and read back
+# there; a refused call leaves fields and text of the node as they were.  Whether a call is refused is not judged.
+
+def _own_text(n, private=None):
+    return n.hwif(as_private=n.secret_exponent() is not None if private is None else private)
+
+
+def _net_of(nd, ctx):
+    return ctx.nets[nd["code"]]
+
+
+def _flip_last(text):
+    return text[:-1] + ("2" if text[-1] != "2" else "3")
+
+
+# name -> call(node record, ctx, i): a call that today's library refuses (raises, or answers None) - or not: not judged
+REFUSALS = {
+    "idx_float": lambda nd, ctx, i: nd["py"].subkey(float(i)),
+    "idx_float_hardened": lambda nd, ctx, i: nd["py"].subkey(float(i), True),
+    "idx_float_public": lambda nd, ctx, i: nd["py"].subkey(float(i), False, False),
+    "idx_str": lambda nd, ctx, i: nd["py"].subkey(str(i)),
+    "idx_none": lambda nd, ctx, i: nd["py"].subkey(None),
+    "idx_bytes": lambda nd, ctx, i: nd["py"].subkey(b"\0"),
+    "idx_2^31": lambda nd, ctx, i: nd["py"].subkey(1 << 31),
+    "idx_plus_2^31": lambda nd, ctx, i: nd["py"].subkey(i + (1 << 31)),
+    "idx_plus_2^32": lambda nd, ctx, i: nd["py"].subkey(i + (1 << 32)),
+    "idx_plus_2^32_hardened": lambda nd, ctx, i: nd["py"].subkey(i + (1 << 32), True),
+    "idx_negative": lambda nd, ctx, i: nd["py"].subkey(i - (1 << 31)),
+    "idx_minus_1": lambda nd, ctx, i: nd["py"].subkey(-1, True),
+    "hardened_public": lambda nd, ctx, i: nd["py"].subkey(i, True, False) if nd["ref"].k is None else nd["py"].public_copy().subkey(i, True),
+    "path_late_float": lambda nd, ctx, i: nd["py"].subkey_for_path("%d/1.5" % i),
+    "path_late_2^31": lambda nd, ctx, i: nd["py"].subkey_for_path("%d/2147483648" % i),
+    "path_late_2^32": lambda nd, ctx, i: nd["py"].subkey_for_path("%d/%d" % (i, (1 << 32) + i)),
+    "path_late_empty": lambda nd, ctx, i: nd["py"].subkey_for_path("%d/" % i),
+    "path_late_marker_only": lambda nd, ctx, i: nd["py"].subkey_for_path("%d/H" % i),
+    "path_late_negative": lambda nd, ctx, i: nd["py"].subkey_for_path("%d/-5" % i),
+    "path_late_pub": lambda nd, ctx, i: nd["py"].subkey_for_path("%d/x.pub" % i),
+    "path_bytes": lambda nd, ctx, i: nd["py"].subkey_for_path(b"%d" % i),
+    "path_none": lambda nd, ctx, i: nd["py"].subkey_for_path(None),
+    "path_int": lambda nd, ctx, i: nd["py"].subkey_for_path(i),
+    "subkeys_late": lambda nd, ctx, i: list(nd["py"].subkeys("%d-%d/x" % (i, i + 1))),
+    "subkeys_2^31": lambda nd, ctx, i: list(nd["py"].subkeys("%d/2147483647-2147483648" % i)),
+    "children_none": lambda nd, ctx, i: list(nd["py"].children(max_level=None)),
+    "children_past_end": lambda nd, ctx, i: list(nd["py"].children(max_level=1, start_index=(1 << 31) - 1, include_hardened=False)),
+    "children_float": lambda nd, ctx, i: list(nd["py"].children(max_level=0, start_index=float(i))),
+    "hwif_private_of_public": lambda nd, ctx, i: nd["py"].public_copy().hwif(as_private=True) if nd["ref"].k is not None else nd["py"].hwif(as_private=True),
+    "serialize_private_of_public": lambda nd, ctx, i: nd["py"].serialize(as_private=True) if nd["ref"].k is None else nd["py"].public_copy().serialize(True),
+    "parse_bad_checksum": lambda nd, ctx, i: _net_of(nd, ctx).parse.bip32(_flip_last(_own_text(nd["py"]))),
+    "parse_bad_checksum_generic": lambda nd, ctx, i: _net_of(nd, ctx).parse.hierarchical_key(_flip_last(_own_text(nd["py"]))),
+    "parse_truncated": lambda nd, ctx, i: _net_of(nd, ctx).parse.bip32(_own_text(nd["py"])[:-3]),
+    "parse_none": lambda nd, ctx, i: _net_of(nd, ctx).parse.bip32(None),
+    "parse_bytes": lambda nd, ctx, i: _net_of(nd, ctx).parse.bip32(_own_text(nd["py"]).encode()),
+    "parse_int": lambda nd, ctx, i: _net_of(nd, ctx).parse.hierarchical_key(i),
+    "parse_seed_text_odd": lambda nd, ctx, i: _net_of(nd, ctx).parse.bip32_seed("H:abc"),
+    "parse_child_text_bad": lambda nd, ctx, i: _net_of(nd, ctx).parse.bip32(_flip_last(_own_text(nd["py"].subkey(i)))),
+    "deser_short": lambda nd, ctx, i: _net_of(nd, ctx).keys.bip32_deserialize(b"\0\0\0\0" + nd["py"].serialize()[:-1]),
+    "deser_long": lambda nd, ctx, i: _net_of(nd, ctx).keys.bip32_deserialize(b"\0\0\0\0" + nd["py"].serialize() + b"\0"),
+    "deser_str": lambda nd, ctx, i: _net_of(nd, ctx).keys.bip32_deserialize(_own_text(nd["py"])),
+    "deser_none": lambda nd, ctx, i: _net_of(nd, ctx).keys.bip32_deserialize(None),
+    "deser_zero_key": lambda nd, ctx, i: _net_of(nd, ctx).keys.bip32_deserialize(b"\0\0\0\0" + bytes(nd["py"].serialize())[:41] + b"\0" * 33),
+    "deser_key_ge_n": lambda nd, ctx, i: _net_of(nd, ctx).keys.bip32_deserialize(b"\0\0\0\0" + bytes(nd["py"].serialize())[:41] + b"\0" + b"\xff" * 32),
+    "deser_bad_point": lambda nd, ctx, i: _net_of(nd, ctx).keys.bip32_deserialize(b"\0\0\0\0" + bytes(nd["py"].serialize())[:41] + b"\2" + b"\0" * 31 + b"\5"),
+    "deser_bytearray": lambda nd, ctx, i: _net_of(nd, ctx).keys.bip32_deserialize(bytearray(b"\0\0\0\0" + nd["py"].serialize())),
+    "seed_none": lambda nd, ctx, i: _net_of(nd, ctx).keys.bip32_seed(None),
+    "seed_str": lambda nd, ctx, i: _net_of(nd, ctx).keys.bip32_seed("00" * 16),
+    "seed_int": lambda nd, ctx, i: _net_of(nd, ctx).keys.bip32_seed(i),
+    "move_none": lambda nd, ctx, i: nd["py"].override_network(None),
+    "move_str": lambda nd, ctx, i: nd["py"].override_network("XTN"),
+    "sign_none": lambda nd, ctx, i: nd["py"].sign(None),
+    "verify_garbage": lambda nd, ctx, i: nd["py"].verify(H32, b"\x30\x00"),
+    "fingerprint_bad_arg": lambda nd, ctx, i: nd["py"].subkey(i).fingerprint(is_compressed="x" * i),
+}
+RNAMES = sorted(REFUSALS)
+SAME_INDEX_REFUSALS = ("idx_float", "idx_float_hardened", "idx_float_public", "idx_str", "idx_plus_2^32", "idx_plus_2^32_hardened",
+                       "idx_plus_2^31", "idx_negative")
+
+
+def _scribble(v, rec):
+    """the caller edits a container the library handed out (if it is a mutable one)"""
+    rec.ev("mutret.looked")
+    if isinstance(v, bytearray):
+        for j in range(len(v)):
+            v[j] ^= 0xFF
+        rec.ev("mutret.scribbled")
+    elif isinstance(v, list):
+        del v[:]
+        rec.ev("mutret.scribbled")
+    elif isinstance(v, dict):
+        v.clear()
+        rec.ev("mutret.scribbled")
+
+
+SCRIBBLES = {
+    "serialize": lambda n: n.serialize(), "serialize_pub": lambda n: n.serialize(as_private=False),
+    "serialize_pos_pub": lambda n: n.serialize(False), "chain_code": lambda n: n.chain_code(),
+    "parent_fingerprint": lambda n: n.parent_fingerprint(), "fingerprint": lambda n: n.fingerprint(), "sec": lambda n: n.sec(),
+    "hash160": lambda n: n.hash160(), "public_pair": lambda n: n.public_pair(), "ku_output": lambda n: n.ku_output(),
+    "child_serialize": lambda n: n.subkey(0).serialize(as_private=False), "child_chain_code": lambda n: n.subkey(0).chain_code(),
+}
+SNAMES = sorted(SCRIBBLES)
+
+
+def chk_objs(case, rec, ctx):
+    code0, bip, seed, base, public = case["net"], case["bip"], case["seed"], list(case["base"]), case["public"]
+    if code0 not in ctx.nets or bip not in ctx.prefixes[code0] or any(op[0] == "move" and op[2] not in ctx.nets for op in case["ops"]):
+        return
+    rec.case(("objs", code0, bip, seed, tuple(base), public, case.get("root_arg"), freeze(case["ops"]), freeze(case.get("electrum"))))
+
+    def V(mech, observed, expected):
+        rec.violation(mech, case, observed, expected)
+    try:
+        rroot = RB.derive(RB.master(seed), base)
+    except RB.Invalid:
+        rec.ev("reference_invalid_key")
+        return
+    net0 = ctx.nets[code0]
+    prv0, pub0 = ctx.prefixes[code0][bip]
+    # the root: from the seed (bip32; the seed possibly in a caller-owned bytearray the caller goes on using), or read from text
+    ba = None
+    if bip == "bip32" and case.get("root_arg") == "bytearray":
+        rec.ev("mutarg.seed_bytearray")
+        ba = bytearray(seed)
+        st, m = observe(net0.keys.bip32_seed, ba)
+        if st == "ok":
+            if bytes(ba) != seed:
+                return V("bip32.argument_modified.seed", bytes(ba), seed)
+            st2, m2 = observe(net0.keys.bip32_seed, ba)
+            t1, t2 = observe(lambda: m.hwif(as_private=True)), observe(lambda: m2.hwif(as_private=True))
+            if st2 != "ok" or t1 != t2:
+                return V("bip32.same_argument_other_answer.seed", [t1[1], m2 if st2 != "ok" else t2[1]], "equal")
+            for j in range(len(ba)):      # the caller reuses its buffer
+                ba[j] = 0xA5
+            rec.ev("mutarg.accepted")
+        else:
+            rec.ev("mutarg.refused")      # not accepted (today it is): not judged
+            st, m = observe(net0.keys.bip32_seed, seed)
+    elif bip == "bip32":
+        st, m = observe(net0.keys.bip32_seed, seed)
+    else:
+        st, m = node_from_text(ctx, code0, bip, RB.to_text(RB.master(seed), prv0, True), rec)
+    if st != "ok" or m is None:
+        return V("%s.master_raises" % bip, m, "a node")
+    st, root = observe(m.subkey_for_path, RB.path_text(base))
+    if st != "ok":
+        return V("bip32.subkey_for_path_raises", root, "a node")
+    if public:
+        if case.get("root_arg") == "deserialize_bytearray":
+            # a blob in a caller-owned bytearray (refused today: not judged; when accepted the caller's edits must not reach the node)
+            rec.ev("mutarg.blob_bytearray")
+            blob = bytearray(pub0 + RB.payload(rroot, False))
+            st, r2 = observe(getattr(net0.keys, "%s_deserialize" % bip), blob)
+            if st == "ok" and r2 is not None:
+                if bytes(blob) != pub0 + RB.payload(rroot, False):
+                    return V("bip32.argument_modified.blob", bytes(blob), "unchanged")
+                for j in range(4, len(blob)):
+                    blob[j] ^= 0xFF
+                rec.ev("mutarg.accepted")
+                root = r2
+            else:
+                rec.ev("mutarg.refused")
+                root = root.public_copy()
+        else:
+            st, root = observe(root.public_copy)
+            if st != "ok":
+                return V("bip32.public_copy_raises", root, "a node")
+        rroot = rroot.neuter()
+    rec.ev("objs.public" if public else "objs.private")
+
+    nodes = [{"py": root, "ref": rroot, "code": code0, "flavours": [bip], "moved": False, "from": None, "seen": set()}]
+    memo = {}
+
+    def rchild(ref, ci):
+        key = (ref.k, ref.K, ref.c, ci)
+        if key not in memo:
+            try:
+                memo[key] = RB.ckd_priv(ref, ci) if ref.k is not None else RB.ckd_pub(ref, ci)
+            except RB.Invalid:
+                memo[key] = None
+        return memo[key]
+
+    def role(nd):
+        return "moved_node" if nd["moved"] else "source_node"
+
+    def texts_of(nd, ref, half):
+        out = {}
+        for f in nd["flavours"]:
+            vp = ctx.prefixes[nd["code"]].get(f)
+            if vp:
+                out[RB.to_text(ref, vp[0] if half else vp[1], half)] = f
+        return out
+
+    def judge(nd, got, ref, private, what):
+        """a node handed out by node record nd (or nd's own node): fields, texts of nd's network, read back there"""
+        d = diff_fields(fields_of(got, rec), ref, private)
+        if d:
+            V("bip32.objs.%s.%s" % (d[0], role(nd)), dict(what, field=d[0], got=d[1]), d[2])
+            return False
+        for half in ((True, False) if private else (False,)):
+            rec.ev("hwif")
+            allowed = texts_of(nd, ref, half)
+            st, t = observe(got.hwif, as_private=half)
+            if st != "ok" or t not in allowed:
+                V("bip32.objs.text_not_of_the_nodes_network.%s" % role(nd), dict(what, network=nd["code"], half="prv" if half else "pub", got=t),
+                  sorted(allowed))
+                return False
+            st, back = node_from_text(ctx, nd["code"], allowed[t], t, rec)
+            if st != "ok" or back is None or not hasattr(back, "tree_depth"):
+                V("bip32.objs.text_not_read_back.%s" % role(nd), dict(what, network=nd["code"], text=t, got=back), "a node")
+                return False
+            st, again = observe(back.hwif, as_private=half)
+            d = diff_fields(fields_of(back, rec), ref if half else ref.neuter(), half)
+            if st != "ok" or again != t or d:
+                V("bip32.objs.text_roundtrip.%s" % role(nd), dict(what, network=nd["code"], text=t, again=again, field=d and d[0]), "same")
+                return False
+        return True
+
+    def unchanged(nd, what):
+        private = nd["ref"].k is not None
+        d = diff_fields(fields_of(nd["py"], rec), nd["ref"], private)
+        if d:
+            V("bip32.objs.node_changed.%s" % d[0], dict(what, got=d[1]), d[2])
+            return False
+        st, t = observe(nd["py"].hwif, as_private=private)
+        if st != "ok" or t != nd["text"]:
+            V("bip32.objs.node_changed.text", dict(what, got=t), nd["text"])
+            return False
+        return True
+
+    def linked(k):
+        """nodes on the other side of a move from node k -> [(index, 'src_then_moved' when k is the moved one)]"""
+        out = []
+        if nodes[k]["from"] is not None:
+            out.append((nodes[k]["from"], "src_then_moved"))
+        for j, o in enumerate(nodes):
+            if o is not None and o["from"] == k:
+                out.append((j, "moved_then_src"))
+        return out
+
+    def note_request(k, req):
+        nd = nodes[k]
+        if req not in nd["seen"]:
+            for j, order in linked(k):
+                if req in nodes[j]["seen"]:
+                    rec.ev("move." + order)
+                    rec.ev("move.%s.%s" % (order, "public" if nd["ref"].k is None else "private"))
+                    if req[0] == "path":
+                        rec.ev("move.path_request")
+        nd["seen"].add(req)
+
+    st, t0 = observe(_own_text, root)
+    if st != "ok":
+        return V("bip32.hwif_raises", t0, "text")
+    nodes[0]["text"] = t0
+    if not judge(nodes[0], root, rroot, not public, {"op": "root"}):
+        return
+    refused_index = {}          # node -> index of the last refused call that used the pool index
+
+    for pos, op in enumerate(case["ops"]):
+        name, k = op[0], op[1]
+        nd = nodes[k] if k < len(nodes) else None
+        if name in ("move", "child", "pub") and nd is None:
+            nodes.append(None)
+            continue
+        if nd is None:
+            continue
+        what = {"op": list(op), "position": pos, "node": k, "network": nd["code"]}
+        private = nd["ref"].k is not None
+        if name == "move":
+            code = op[2]
+            rec.ev("move")
+            st, mv = observe(nd["py"].override_network, ctx.nets[code])
+            if st != "ok" or mv is None or not hasattr(mv, "tree_depth"):
+                rec.ev("move.refused")          # the statement does not say a node can be moved: not judged
+                nodes.append(None)
+                continue
+            rec.ev("move.moved")
+            if ctx.prefixes[code]["bip32"] != ctx.prefixes[nd["code"]].get("bip32"):
+                rec.ev("move.prefix_differs")
+            if nd["moved"]:
+                rec.ev("move.again")
+            if code == nodes[0]["code"] and nd["moved"]:
+                rec.ev("move.back")
+            mprivate = observe(mv.secret_exponent)[1] is not None
+            new = {"py": mv, "ref": nd["ref"] if mprivate or not private else nd["ref"].neuter(), "code": code,
+                   "flavours": [b for b in BIPS if b in ctx.prefixes[code]], "moved": True, "from": k, "seen": set()}
+            if private and not mprivate:
+                rec.ev("move.became_public")
+            nodes.append(new)
+            if not judge(new, mv, new["ref"], new["ref"].k is not None, what):
+                return
+            st, new["text"] = observe(_own_text, mv)
+            # the flavour the moved node shows is the flavour its children show
+            new["flavours"] = [f for f in new["flavours"] if new["text"] in texts_of(dict(new, flavours=[f]), new["ref"], new["ref"].k is not None)] or new["flavours"]
+            if not unchanged(nd, dict(what, after="move")):
+                return
+        elif name == "pub":
+            rec.ev("public_copy")
+            st, pc = observe(nd["py"].public_copy)
+            if st != "ok":
+                return V("bip32.public_copy_raises", pc, "a node")
+            new = dict(nd, py=pc, ref=nd["ref"].neuter(), seen=set(), **{"from": None})
+            nodes.append(new)
+            if not judge(new, pc, new["ref"], False, what):
+                return
+            new["text"] = observe(_own_text, pc)[1]
+        elif name in ("ask", "child"):
+            i, hard = op[2], bool(op[3])
+            ap = None if name == "child" or op[4] is None else bool(op[4])
+            rec.ev("subkey")
+            rec.ev("objs.ask")
+            if refused_index.get(k) == i:
+                rec.ev("refuse.then_same_index")
+            note_request(k, ("ask", i, hard, private if ap is None else ap))
+            st, got = observe(nd["py"].subkey, i, hard, ap)
+            if not private and hard:
+                rec.ev("hardened_from_public")
+                if st == "ok":
+                    return V("bip32.hardened_from_public_accepted", dict(what, returned=repr(got)[:100]), "an exception")
+                if name == "child":
+                    nodes.append(None)
+                continue
+            if not private and ap and st != "ok":
+                rec.ev("cache.public_parent_asked_private.refused")
+                continue
+            rch = rchild(nd["ref"], i + (HARD if hard else 0))
+            if rch is None:
+                if name == "child":
+                    nodes.append(None)
+                continue
+            if st != "ok" or not hasattr(got, "tree_depth"):
+                return V("bip32.objs.subkey_raises.%s" % role(nd) if st != "ok" else "bip32.objs.subkey_returned_no_node",
+                         dict(what, exc=got) if st != "ok" else dict(what, returned=repr(got)[:100]), "a node")
+            want_private = private and ap is not False
+            if not judge(nd, got, rch, want_private, what):
+                return
+            if name == "child":
+                new = dict(nd, py=got, ref=rch, seen=set(), **{"from": None})
+                new["text"] = observe(_own_text, got)[1]
+                nodes.append(new)
+                rec.ev("objs.child_as_node")
+                if nd["moved"]:
+                    rec.ev("move.child_of_moved_as_node")
+        elif name == "path":
+            text = op[2]
+            force_public = text.endswith(".pub")
+            plain = text[:-4] if force_public else text
+            rec.ev("subkey_for_path")
+            note_request(k, ("path", plain))
+            try:
+                rp = RB.derive(nd["ref"], RB.parse_path(plain))
+            except RB.Refused:
+                rec.ev("hardened_from_public")
+                st, got = observe(nd["py"].subkey_for_path, text)
+                if st == "ok":
+                    return V("bip32.hardened_from_public_accepted", dict(what, returned=repr(got)[:100]), "an exception")
+                continue
+            except RB.Invalid:
+                continue
+            st, got = observe(nd["py"].subkey_for_path, text)
+            if st != "ok" or not hasattr(got, "tree_depth"):
+                return V("bip32.objs.subkey_for_path_raises.%s" % role(nd) if st != "ok" else "bip32.objs.subkey_returned_no_node",
+                         dict(what, exc=got) if st != "ok" else dict(what, returned=repr(got)[:100]), "a node")
+            if not judge(nd, got, rp, private and not force_public, what):
+                return
+        elif name == "refuse":
+            fn = REFUSALS.get(op[2])
+            if fn is None:
+                continue
+            rec.ev("refuse.call")
+            rec.ev("refuse." + op[2].split("_")[0])
+            st, r = observe(fn, nd, ctx, op[3])
+            rec.ev("refuse.raised" if st != "ok" else "refuse.answered_none" if r is None else "refuse.answered")
+            if op[2] in SAME_INDEX_REFUSALS:
+                refused_index[k] = op[3]
+            if not unchanged(nd, dict(what, after="a refused call")):
+                return
+        elif name == "scribble":
+            fn = SCRIBBLES.get(op[2])
+            if fn is None:
+                continue
+            st, v = observe(fn, nd["py"])
+            if st == "ok":
+                _scribble(v, rec)
+            if not unchanged(nd, dict(what, after="the caller edited what the call returned")):
+                return
+        elif name == "q":
+            do_queries(nd["py"], op[2], rec, ctx)
+    for k, nd in enumerate(nodes):
+        if nd is not None and not unchanged(nd, {"node": k, "network": nd["code"], "after": "the whole history"}):
+            return
+    if ba is not None and bytes(ba) != b"\xa5" * len(seed):
+        rec.ev("inconclusive:objs_caller_buffer_changed_by_harness")
+
+    # Electrum: the master public key handed over in a caller-owned bytearray; refused calls between the judged ones
+    el = case.get("electrum")
+    if el:
+        net = ctx.nets[code0]
+        rec.ev("electrum.wallet")
+        st, w = observe(net.keys.electrum_private, master_private_key=el["secret"])
+        if st != "ok":
+            return V("electrum.construct_raises", w, "a wallet")
+        st, mpk = observe(w.master_public_key)
+        if st != "ok":
+            return V("electrum.master_public_key_raises", mpk, "64 bytes")
+        buf = bytearray(mpk)
+        rec.ev("mutarg.electrum_mpk_bytearray")
+        st, pw = observe(net.keys.electrum_public, master_public_key=buf)
+        if st != "ok":
+            rec.ev("mutarg.refused")
+            st, pw = observe(net.keys.electrum_public, master_public_key=bytes(mpk))
+            if st != "ok":
+                return V("electrum.construct_raises", pw, "a wallet")
+        else:
+            rec.ev("mutarg.accepted")
+            if bytes(buf) != bytes(mpk):
+                return V("electrum.argument_modified.master_public_key", bytes(buf), bytes(mpk))
+        for rnd in (0, 1):
+            for path in el["paths"]:
+                for bad in el.get("bad", []):
+                    rec.ev("refuse.call")
+                    rec.ev("refuse.electrum")
+                    for wallet in (w, pw):
+                        stb, _ = observe(wallet.subkey, bad)
+                        rec.ev("refuse.raised" if stb != "ok" else "refuse.answered")
+                rec.ev("electrum.subkey")
+                rec.ev("electrum.commutation")
+                st, a = observe(lambda: tuple(w.subkey(path).public_pair()))
+                st2, b = observe(lambda: tuple(pw.subkey(path).public_pair()))
+                if st != "ok" or st2 != "ok" or a != b:
+                    return V("electrum.commute_mismatch", {"path": path, "private_side": a, "public_side": b, "round": rnd,
+                                                           "public_wallet": "from a bytearray the caller reused" if rnd else "from a bytearray"}, "equal")
+            for j in range(len(buf)):      # the caller reuses its buffer; the second round must give what the first gave
+                buf[j] = 0x11
+
+
+def gen_objs_case(rng, ctx, k):
+    by_bip = {b: [c for c in ctx.codes if b in ctx.prefixes[c]] for b in BIPS}
+    bip = rng.choice(["bip32", "bip32", "bip32", "bip49", "bip84"])
+    if not by_bip[bip]:
+        bip = "bip32"
+    main = [c for c in ("BTC", "XTN", "LTC") if c in by_bip[bip]] or by_bip[bip]
+    src = rng.choice(main) if rng.random() < 0.6 else rng.choice(by_bip[bip])
+    others = [c for c in ctx.codes if c != src]
+    differing = [c for c in others if ctx.prefixes[c]["bip32"] != ctx.prefixes[src].get("bip32")]
+    r = rng.random()
+    dst = rng.choice([c for c in ("BTC", "XTN", "LTC") if c in differing] or differing or others) if r < 0.5 else \
+        rng.choice(differing or others) if r < 0.8 else rng.choice(others)
+    third = rng.choice(others)
+    public = rng.random() < 0.45
+    pool = [rng.choice(EDGE_INDICES) for _ in range(2)] + [rng.randrange(HARD)]
+
+    def ask(kk, same=None):
+        if same is not None:
+            return ["ask", kk] + same[2:]
+        return ["ask", kk, rng.choice(pool), rng.random() < (0.08 if public else 0.35), rng.choice([None, None, 0, 1])]
+
+    def path(kk):
+        p = [rng.choice(pool) + (HARD if (not public) and rng.random() < 0.3 else 0), rng.choice(pool)]
+        return ["path", kk, RB.path_text(p, rng.choice("Hp'")) + (".pub" if rng.random() < 0.25 else "")]
+
+    def noise(kk):
+        r = rng.random()
+        if r < 0.45:
+            nm = rng.choice(RNAMES) if rng.random() < 0.6 else rng.choice(SAME_INDEX_REFUSALS)
+            i = rng.choice(pool)
+            out = [["refuse", kk, nm, i]]
+            if nm in SAME_INDEX_REFUSALS:       # ... then the same index, validly
+                out.append(["ask", kk, i, "hardened" in nm and not public, 0 if "public" in nm else None])
+            return out
+        if r < 0.6:
+            return [["scribble", kk, rng.choice(SNAMES)]]
+        if r < 0.7:
+            return [["q", kk, gen_queries(rng, (1, 1, 2))]]
+        return []
+    A = [ask(0) for _ in range(rng.choice([1, 2, 3]))] + [path(0) for _ in range(rng.choice([0, 1]))]
+    B = [ask(1) for _ in range(rng.choice([1, 2, 3]))] + [path(1) for _ in range(rng.choice([0, 1]))]
+    ops = []
+    for o in A:                                   # before the move, on the source
+        ops += noise(0) + [o]
+    ops.append(["move", 0, dst])                  # node 1
+    for o in A + B:                               # on the moved node: what the source has derived, and new children
+        ops += noise(1) + [[o[0], 1] + o[2:]]
+    for o in B + A:                               # back on the source: what the moved node derived first, and its own again
+        ops += noise(0) + [[o[0], 0] + o[2:]]
+    n = 2
+    r = rng.random()
+    if r < 0.35:                                  # moved once more (back home, or on to a third network)
+        ops.append(["move", 1, src if rng.random() < 0.6 else third])
+        for o in rng.sample(A + B, min(3, len(A + B))):
+            ops += noise(n) + [[o[0], n] + o[2:]]
+        for o in rng.sample(A + B, 2):
+            ops.append([o[0], 1] + o[2:])
+        n += 1
+    elif r < 0.65:                                # a cached child taken as a node, used, moved, asked on both sides
+        i, hard = rng.choice(pool), (not public) and rng.random() < 0.3
+        ops.append(["child", rng.choice([0, 1]), i, hard])
+        c = n
+        n += 1
+        C = [ask(c) for _ in range(2)]
+        ops += [list(o) for o in C[:1]]
+        ops.append(["move", c, rng.choice([dst, src, third])])
+        m = n
+        n += 1
+        for o in C:
+            ops += noise(m) + [[o[0], m] + o[2:]]
+        for o in C:
+            ops += noise(c) + [[o[0], c] + o[2:]]
+    elif r < 0.85 and not public:                 # a public copy taken late, moved, asked what the private side derived
+        ops.append(["pub", rng.choice([0, 1])])
+        c = n
+        n += 1
+        asks = [["ask", c, o[2], False, None] for o in A + B if o[0] == "ask"][:3]
+        ops += asks[:1]
+        ops.append(["move", c, rng.choice([dst, src, third])])
+        for o in asks:
+            ops.append(["ask", n, o[2], False, 0])
+        for o in asks:
+            ops.append(["ask", c, o[2], False, None])
+        n += 1
+    case = {"kind": "objs", "net": src, "bip": bip, "seed": gen_seed(rng, k + 1), "base": [gen_index(rng) for _ in range(rng.choice([0, 0, 1, 2]))],
+            "public": public, "ops": ops}
+    if bip == "bip32" and rng.random() < 0.4:
+        case["root_arg"] = "bytearray"
+    elif public and rng.random() < 0.3:
+        case["root_arg"] = "deserialize_bytearray"
+    if k % 4 == 0:
+        case["electrum"] = {"secret": rng.choice([1, RB.N - 1, rng.randrange(1, RB.N)]),
+                            "paths": ["%d/%d" % (rng.choice([0, 1, 65536, rng.randrange(1 << 31)]), rng.choice([0, 1])) for _ in range(2)],
+                            "bad": rng.sample(["x", "1/2/3", "", "1.5", None, 5, "0/0/"], 2)}
+    return case
+
+
+def run_objs(spec, rec, ctx):
+    rng = shard_rng(spec["seed"], PROPERTY, spec["tier"], spec["shard"])
+    for k in range(spec["n"]):
+        case = gen_objs_case(rng, ctx, k)
+        chk_objs(case, rec, ctx)
+        if k < 2:
+            rec.sample({"kind": "objs", "net": case["net"], "bip": case["bip"], "public": case["public"], "ops": case["ops"][:10]})
+
+
+# ---------------------------------------------------------------------------------------------------------
 
 KINDS = {"derive": (run_derive, chk_derive), "nets": (run_nets, chk_synthetic), "spell": (run_spell, chk_spell),
          "cache": (run_cache, chk_cache), "electrum": (run_electrum, chk_electrum), "text": (run_text, chk_text),
-         "vectors": (run_vectors, chk_vectors)}
+         "vectors": (run_vectors, chk_vectors), "longrun": (run_longrun, chk_longrun), "objs": (run_objs, chk_objs)}
 REQUIRED = {
     "derive": ["from_master_secret", "subkey_for_path", "subkey", "hwif", "public_copy", "commutation", "hardened_from_public",
                "parse.bip32", "accessor.secret", "accessor.public_pair", "accessor.chain_code", "accessor.depth",
@@ -1431,6 +2246,14 @@ REQUIRED = {
     "electrum": ["electrum.subkey", "electrum.commutation", "electrum.subkeys", "electrum.subkeys.nonempty", "electrum.from_seed",
                  "electrum.from_master_private_key", "electrum.path.change", "electrum.path.receiving"],
     "vectors": ["vector_node.BTC", "vector_node.XTN"],
+    "objs": ["move.moved", "move.prefix_differs", "move.src_then_moved", "move.moved_then_src", "move.src_then_moved.private",
+             "move.src_then_moved.public", "move.moved_then_src.private", "move.moved_then_src.public", "move.path_request",
+             "move.again", "move.back", "move.child_of_moved_as_node", "objs.child_as_node", "objs.public", "objs.private", "objs.ask",
+             "refuse.call", "refuse.raised", "refuse.then_same_index", "refuse.idx", "refuse.path", "refuse.parse", "refuse.deser",
+             "refuse.seed", "refuse.subkeys", "refuse.children", "refuse.hwif", "refuse.electrum",
+             "mutarg.seed_bytearray", "mutarg.electrum_mpk_bytearray", "mutarg.blob_bytearray", "mutarg.accepted", "mutret.looked",
+             "hardened_from_public", "electrum.commutation"],
+    "longrun": ["longrun.beyond_2^16", "longrun.block_sum", "longrun.full_reference", "longrun.repeat", "longrun.text", "longrun.requests"],
     "text": ["text.hwif", "text.as_text", "text.repr", "text.str", "text.ku_output", "text.serialize", "text.roundtrip", "deserialize",
              "parse.bip32", "parse.bip49", "parse.bip84", "parse.bip49.split", "parse.bip84.split", "parse.hierarchical_key",
              "parse.secret", "parse.call", "parse.bip32_seed", "public_copy", "subkeys", "children"],
@@ -1448,6 +2271,8 @@ def run_shard(spec, rec):
     if kind == "derive" and spec["shard"] == 0:
         need.append("depth.255")         # the one path of 255 steps is driven by the first shard
         need += REQUIRED["vectors"]      # and so are the published vectors
+    if kind == "longrun" and spec["tier"] != "quick":
+        need.append("longrun.beyond_2^17")
     rec.require(*need)
     KINDS[kind][0](spec, rec, ctx)
 
